@@ -520,8 +520,9 @@ impl ArchiveFooter {
         ))?;
 
         // Read files_info
+        // The footer cannot need more than its own serialized length
         let files_info: HashMap<String, FileInfo> = match bincode::options()
-            .with_limit(BINCODE_MAX_DESERIALIZE)
+            .with_limit(len.min(BINCODE_MAX_DESERIALIZE))
             .with_fixint_encoding()
             .deserialize_from(&mut src.take(len))
         {
